@@ -127,6 +127,10 @@ type c02Target struct {
 type c02Worker struct {
 	progs   [][]refsem.Step
 	targets []c02Target
+	// programs from edgeStart on belong to the edge-centred sweep (progenum.EdgePrograms, one step deeper
+	// than the full alphabet) and run on the edge-property fixture only
+	edgeStart   int
+	edgeTargets []c02Target
 	spell   [][][]refsem.Step // groups of programs that must return identical rows
 }
 
@@ -157,9 +161,8 @@ func c02Comparable(p []refsem.Step) bool {
 			if !(i == len(p)-1 || (i == len(p)-2 && p[len(p)-1].Op == "count")) {
 				return false
 			}
-			if len(s.Strs) > 0 && i == len(p)-1 {
-				return false // which row represents a group depends on arrival order; only its count is comparable
-			}
+			// a final distinct(fields): which row represents a group depends on arrival order, so only the
+			// number of groups is compared (endsTrunc)
 		}
 	}
 	return true
@@ -241,6 +244,24 @@ func newC02Worker(tier string) *c02Worker {
 		gmodel.ApplyDB(db, gmodel.Op{Kind: "AddVertex", G: "g", Elems: []gmodel.Elem{{ID: "a", Label: "Q", Data: map[string]any{"n": 1.0, "s": "x"}}}})
 		gmodel.ApplyDB(db, gmodel.Op{Kind: "DelVertex", G: "g", ID: "c"})
 		w.targets = append(w.targets, c02Target{"kvgraph/F2-after-relabel-and-delete", gi}, c02Target{"noload/F2-after-relabel-and-delete", noLoad{gi}})
+	}
+	{
+		_, gi := fx[6].LoadMem()
+		w.edgeTargets = []c02Target{{"kvgraph/" + fx[6].Name, gi}, {"noload/" + fx[6].Name, noLoad{gi}}}
+		w.edgeStart = len(w.progs)
+		seen := map[string]bool{}
+		for _, p := range w.progs {
+			seen[refsem.ProgName(p)] = true
+		}
+		edgeLen := 5
+		if tier == "thorough" {
+			edgeLen = 6
+		}
+		for _, p := range progenum.EdgePrograms(edgeLen) {
+			if !seen[refsem.ProgName(p)] && c02Compilable(p) {
+				w.progs = append(w.progs, p)
+			}
+		}
 	}
 	// equivalent spellings as a prefix, followed by every continuation of length <= 2 (1 quick)
 	lab := []refsem.Step{
@@ -345,7 +366,7 @@ func c02Diff(a, b c02Out, countOnly bool) (string, string) {
 
 func endsTrunc(p []refsem.Step) bool {
 	n := len(p)
-	return n > 0 && (p[n-1].Op == "limit" || p[n-1].Op == "skip" || p[n-1].Op == "range")
+	return n > 0 && (p[n-1].Op == "limit" || p[n-1].Op == "skip" || p[n-1].Op == "range" || (p[n-1].Op == "distinct" && len(p[n-1].Strs) > 0))
 }
 
 func storeClass(name string) string {
@@ -379,7 +400,11 @@ func (w *c02Worker) Item(idx int, emit func(vf.Violation), st sweep.Stats, sampl
 		st["order_dependent_skipped"]++
 		return
 	}
-	for _, tg := range w.targets {
+	targets := w.targets
+	if idx >= w.edgeStart {
+		targets = w.edgeTargets
+	}
+	for _, tg := range targets {
 		a, b := runA(tg.gi, p), runB(tg.gi, p)
 		st["runs"] += 2
 		if len(a.rows) > 0 {
